@@ -402,7 +402,7 @@ func (p *c20Priv) defineKinds() {
 			NewGenesisInfo: rollapptypes.GenesisInfo{Bech32Prefix: "rol", GenesisChecksum: fmt.Sprintf("checksum%d", n), InitialSupply: math.NewInt(1000),
 				NativeDenom: rollapptypes.DenomMetadata{Display: "DEN", Base: "aden", Exponent: 18}}}, nil
 	})
-	add(&c20PK{key: "rollapp.MsgRollappFraudProposal", obj: -1, class: "authority", rare: true, build: func(p *c20Priv, s sdk.AccAddress, n, _ int) (sdk.Msg, error) {
+	add(&c20PK{key: "rollapp.MsgRollappFraudProposal", obj: -1, class: "authority", rare: true, after: "recover", build: func(p *c20Priv, s sdk.AccAddress, n, _ int) (sdk.Msg, error) {
 		return p.fraudMsg(s) // on r2, the rollapp with a canonical client (c20_ibc_test.go)
 	}})
 	// ---- governance-routed legacy contents
@@ -707,6 +707,8 @@ func (p *c20Priv) exec(line string, f []string) string {
 			p.fixVote()
 		case "tick":
 			p.tick(time.Minute)
+		case "subject":
+			p.fixSubject()
 		case "app":
 			p.nonce++
 			p.deliverMust("add app", &rollapptypes.MsgAddApp{Creator: Actor(p.owners[oRollapp]).String(), Name: fmt.Sprintf("fixapp%d", p.nonce), RollappId: p.ra0, Description: "d", Image: "https://dymension.xyz/i.png", Url: "https://dymension.xyz", Order: int32(1000 + p.nonce)})
@@ -905,6 +907,9 @@ func (p *c20Priv) generate(run func(string) string, nOps int) {
 		}
 	}
 	for i := 0; i < nOps; i++ {
+		if g.Chance(1) {
+			p.genRecover(run) // the client frozen by the fixture (or still frozen by a fraud proposal)
+		}
 		k := p.kinds[g.Intn(len(p.kinds))]
 		priv := g.Chance(45)
 		if k.rare && priv && !g.Chance(25) {
@@ -941,7 +946,9 @@ func (p *c20Priv) generate(run func(string) string, nOps int) {
 		obs := run(fmt.Sprintf("priv %s %d %s %s %s", k.key, k.obj, signer, v, no))
 		syncProposer()
 		if obs == "ok" && priv && k.after != "" {
-			if k.after == "buy" {
+			if k.after == "recover" {
+				p.genRecover(run) // c20_ibc_test.go
+			} else if k.after == "buy" {
 				b := p.owners[oBuy]
 				if b == p.owners[oName] { // the owner of a name cannot bid for it
 					b = (b + 1) % c20Actors
